@@ -262,8 +262,71 @@ fn live_count(st: &ProgGen, t: usize) -> usize {
     (0..st.len()).filter(|&k| st.tape[k] == Some(t) && !st.stale[k]).count()
 }
 
+/// LARGE case: 72 variables on one tape, sums of 9..65 terms (one of them with a foreign term
+/// after 12 own terms), epochs of hundreds of operations reaching back to the first variables,
+/// clear + reset of all 72 / of half of them in shuffled order.
+fn gen_large15(g: &mut Gen) {
+    g.count("c15.large.case");
+    g.op("@ tapes 2 via=new".into());
+    let mut st = ProgGen::new(Kind::Fp, "c15");
+    let nvars = 72;
+    for _ in 0..nvars {
+        let l = st.leaf_var(g, 0);
+        g.op(l);
+    }
+    let foreign = st.len();
+    for _ in 0..2 {
+        let l = st.leaf_var(g, 1);
+        g.op(l);
+    }
+    let c0 = st.len();
+    for _ in 0..2 {
+        let l = st.leaf_const(g);
+        g.op(l);
+    }
+    gen_big_sums(g, &mut st, &[0, 1, 2, 3, 4, 5], &[c0, c0 + 1]);
+    // a foreign term after twelve own terms: panics, the twelve entries stay
+    let own: Vec<String> = (0..12).map(|j| format!("r{}", j)).collect();
+    g.op(format!("sum r{} {},r{},r1", st.len() + 5000, own.join(","), foreign));
+    g.op("derivs r0 via=vec".into());
+    g.op(format!("derivs r{} via=vec", foreign));
+    let epoch = |g: &mut Gen, st: &mut ProgGen, live: &[usize], steps: usize| {
+        let mut last = live[0];
+        for _ in 0..steps {
+            let v = if g.rng.chance(1, 2) { live[g.rng.below(live.len().min(3))] } else { *g.rng.pick(live) };
+            let l = if g.rng.chance(1, 2) { far_instr(g, st, last, v) } else { far_instr(g, st, v, last) };
+            g.op(l);
+            last = st.len() - 1;
+        }
+        g.op(format!("derivs r{} via=vec", last));
+    };
+    let all: Vec<usize> = (0..nvars).collect();
+    epoch(g, &mut st, &all, 300);
+    // cycle 1: reset everything, in shuffled order
+    g.op("clear t=0".into());
+    let mut order = all.clone();
+    g.rng.shuffle(&mut order);
+    for &k in &order {
+        let via = pick_form(g, "c15", "reset", &["reset", "do_reset"]);
+        g.op(format!("reset r{} via={}", k, via));
+    }
+    gen_big_sums(g, &mut st, &order[..7], &[c0, c0 + 1]);
+    epoch(g, &mut st, &order, 150);
+    // cycle 2: reset only half of them
+    g.op("clear t=0".into());
+    g.rng.shuffle(&mut order);
+    let half: Vec<usize> = order[..nvars / 2].to_vec();
+    for &k in &half {
+        g.op(format!("reset r{} via=reset", k));
+    }
+    epoch(g, &mut st, &half, 150);
+    // a record that was not reset: misuse, modelled
+    g.op(format!("derivs r{} via=vec", order[nvars - 1]));
+}
+
 pub fn gen(g: &mut Gen) {
     gen_systematic(g);
+    gen_large15(g);
     let n = if g.thorough { 20000 } else { 800 };
     for _ in 0..n {
         gen_case(g);
